@@ -147,6 +147,53 @@ func loadKnown(path string) ([]KnownFinding, error) {
 	return kf.Findings, nil
 }
 
+// Failing reports whether Finish would exit non-zero (unlisted violations, undecided obligations or unmet floors).
+func (r *Report) Failing(verifDir string) bool {
+	for rule, n := range r.floor {
+		if r.count[rule] < n {
+			return true
+		}
+	}
+	known, _ := loadKnown(filepath.Join(verifDir, "known_findings.json"))
+	for _, o := range r.Obls {
+		switch o.Verdict {
+		case Undecided:
+			return true
+		case Violated:
+			hit := false
+			for _, k := range known {
+				if k.Status == "known" && k.Property == r.Prop && k.Rule == o.Rule && (k.Construct == o.Construct || (k.Stable != "" && r.Stable != nil && k.Stable == r.Stable(o.Construct))) {
+					hit = true
+				}
+			}
+			if !hit {
+				return true
+			}
+		}
+	}
+	return false
+}
+
+// Summary is a one-line count of the obligations that were not discharged.
+func (r *Report) Summary() string {
+	v, u := 0, 0
+	for _, o := range r.Obls {
+		switch o.Verdict {
+		case Violated:
+			v++
+		case Undecided:
+			u++
+		}
+	}
+	fl := 0
+	for rule, n := range r.floor {
+		if r.count[rule] < n {
+			fl++
+		}
+	}
+	return fmt.Sprintf("%d violated, %d undecided, %d rules below their floor", v, u, fl)
+}
+
 // Finish prints the verdicts, writes the evidence and replay files and returns the exit code.
 func (r *Report) Finish(verifDir, evidencePath string) int {
 	// non-vacuity floors
